@@ -383,7 +383,7 @@ fn units_for(tag: u16) -> [u16; 13] {
 }
 
 /// block A: all order / checksum patterns for runs of n long-name slots, with a follower pattern
-fn pattern_case(n: usize, mut idx: u64, chained: bool) -> DirCase {
+pub fn pattern_case(n: usize, mut idx: u64, chained: bool) -> DirCase {
     let short: [u8; 11] = *b"SHORTNMETXT";
     let good = sfn_checksum(&short);
     let mut slots = Vec::new();
@@ -428,7 +428,7 @@ fn pattern_case(n: usize, mut idx: u64, chained: bool) -> DirCase {
     DirCase { chained, slots }
 }
 
-fn soup_strategy() -> impl Strategy<Value = DirCase> {
+pub fn soup_strategy() -> impl Strategy<Value = DirCase> {
     let piece = prop_oneof![
         // a valid run + short entry, optionally damaged in one byte
         6 => ("[a-zA-Z0-9 ._éß語-]{1,40}", "[A-Z0-9]{1,8}", prop::option::weighted(0.5, (0usize..200, any::<u8>())), prop::sample::select(vec![0x20u8, 0x10, 0x00, 0x01, 0x27, 0x30, 0x16])).prop_map(|(name, sh, dmg, attr)| {
